@@ -673,7 +673,12 @@ def _search_names(co, values, glb, closure=None):
     if isinstance(co, CodeType):
         if closure is not None:
             for varname, cell in zip(co.co_freevars, closure):
-                if any(cell.cell_contents is v for v in values):
+                try:
+                    contents = cell.cell_contents
+                except ValueError:
+                    # Not assigned yet in the enclosing function
+                    continue
+                if any(contents is v for v in values):
                     yield varname
         for name in co.co_names:
             if any(glb.get(name, None) is v for v in values):
